@@ -90,6 +90,7 @@ def contract(cell, ir):
 
 def main(tier, write_baseline=False):
     run = Run("C08", tier, "other", checker_cmd=common.checker_cmd("C08", tier))
+    M.RAISE_CTX.update(prop="C08", write=bool(write_baseline))
     run.trusted_base.update(["cddvc E1 (records with presence bits, string VCs)", "z3 5.1"])
     refuted = e1.run_contracts(run, "contracts.C08")
     if write_baseline:
@@ -131,6 +132,7 @@ def main(tier, write_baseline=False):
         seen.add(o["name"])
         run.violation(o["name"], "obligation refuted by %s on path %s" % (o["backend"], " ".join(o["trace"])), solver_output={"model": o["model"], "smt2": (o["smt2"] or "")[:4000]})
     M.report(run, "C08/bounded", fails)
+    M.flush_raise_baseline()
     common.apply_controls(run, tier)
     return run.finish(explanation="PROVED (lemma): set_default_doc is idempotent in the sense that matters (never a second 'Defaults to'). BOUNDED only: the fixpoint property itself.")
 
